@@ -23,6 +23,8 @@ from typing import ClassVar
 
 import jax
 import jax.numpy as jnp
+
+import liesel.goose as gs
 import numpy as np
 
 from liesel.goose.epoch import EpochState
@@ -196,6 +198,17 @@ class ProbeKernel(ModelMixin, TransitionMixin, TuningMixin):
                        x0=-1 if tuning_history is None else 1)
         st.version = st.version + 1
         return WarmupOutcome(error_code=self._tune_code(model_state), kernel_state=st)
+
+
+class ComputingDictInterface(gs.DictInterface):
+    """A model interface whose extract_position *computes* one of the tracked quantities from the state it is handed
+    (like the PyMC interface does): "nel" = number of elements of p1 in this state."""
+
+    def extract_position(self, position_keys, model_state):
+        out = {k: model_state[k] for k in position_keys if k != "nel"}
+        if "nel" in position_keys:
+            out["nel"] = jnp.sum(jnp.ones_like(model_state["p1"]))
+        return gs.Position(out)
 
 
 class NullKernel(ProbeKernel):
